@@ -72,7 +72,11 @@ type bpool struct {
 	denoms []string
 	fee    osmomath.Dec
 	exit   osmomath.Dec
+	lbp    bool      // created with smooth weight change parameters
+	now    time.Time // block time of the current operation
 }
+
+var poolBirth = time.Unix(1_900_000_000, 0).UTC()
 
 func (b *bpool) bal(d string) *big.Int {
 	a, err := b.p.GetPoolAsset(d)
@@ -90,8 +94,18 @@ func (b *bpool) weight(d string) *big.Int {
 func (b *bpool) shares() *big.Int { return b.p.GetTotalShares().BigInt() }
 
 // lnV = sum_k (w_k/W) ln B_k - ln S   (value of one share in the weighted-product numeraire)
+// sumW is the sum of the asset weights as the pool reports them per asset (the normalising constant of the
+// constant-weighted-product formula); the pool's own cached total is deliberately not consulted.
+func (b *bpool) sumW() F {
+	s := new(big.Int)
+	for _, d := range b.denoms {
+		s.Add(s, b.weight(d))
+	}
+	return fi(s)
+}
+
 func (b *bpool) lnV() F {
-	W := fi(b.p.GetTotalWeight().BigInt())
+	W := b.sumW()
 	s := ref.F(0)
 	for _, d := range b.denoms {
 		s = ref.Fadd(s, ref.Fmul(ref.Fquo(fi(b.weight(d)), W), ref.Ln(fi(b.bal(d)))))
@@ -152,25 +166,60 @@ func newBalancer(rt *rapid.T) *bpool {
 		b.denoms = append(b.denoms, d)
 		assets = append(assets, balancer.PoolAsset{Weight: osmomath.NewInt(genWeight(rt, "w"+d)), Token: sdk.NewCoin(d, osmomath.NewIntFromBigInt(genBal(rt, "bal"+d)))})
 	}
-	p, err := balancer.NewBalancerPool(1, balancer.PoolParams{SwapFee: b.fee, ExitFee: b.exit}, assets, "", time.Unix(1_900_000_000, 0))
+	params := balancer.PoolParams{SwapFee: b.fee, ExitFee: b.exit}
+	if rapid.IntRange(0, 3).Draw(rt, "lbp") == 0 {
+		// liquidity-bootstrapping pool: weights move linearly from the initial to generated target weights; the keeper
+		// brings them up to the block time (PokePool) every time it loads the pool, and so does this harness
+		var target []balancer.PoolAsset
+		for _, d := range b.denoms {
+			target = append(target, balancer.PoolAsset{Weight: osmomath.NewInt(genWeight(rt, "tw"+d)), Token: sdk.NewCoin(d, osmomath.ZeroInt())})
+		}
+		start := poolBirth.Add(time.Duration(rapid.Int64Range(0, int64(2*time.Hour)).Draw(rt, "lbpStartIn")))
+		dur := time.Duration(rapid.Int64Range(int64(time.Second), int64(10*24*time.Hour)).Draw(rt, "lbpDuration"))
+		params.SmoothWeightChangeParams = &balancer.SmoothWeightChangeParams{StartTime: start, Duration: dur, TargetPoolWeights: target}
+		b.lbp = true
+	}
+	p, err := balancer.NewBalancerPool(1, params, assets, "", poolBirth)
 	if err != nil {
 		rt.Skip("pool parameters rejected: " + err.Error())
 	}
 	b.p = p
+	b.now = poolBirth
 	return b
 }
 
-const balRule = "balancer.Pool objects built directly: 2-8 assets, reserves log-uniform 1..1e30 (incl. 1e12:1 imbalances and reserves below 1000 units where one unit of rounding dominates), weights 1..2^20-1, spread 0..10%, exit fee 0..5%; sequences of <= 12 operations (swap exact in/out, single-asset join, multi-asset uneven join, proportional no-swap join, exit, single-asset in for exact shares, exit-swap exact out) with trade sizes from 1 unit to multiples of the reserve; oracle: closed constant-weighted-product formula in 1024-bit floats with tolerance = unknown balance x the power precision bound (PowTol) + 2 units, one-sided (never in the trader's favour beyond it), and ln(value per share) = sum w_k/W ln B_k - ln S never falling by more than the same tolerance relative to the affected reserve/share total; proportional joins mint <= floor(S*min in_k/B_k), exits pay <= floor(B_k*shares(1-exitFee)/S); non-trivial = an operation moved a reserve by more than one unit with an inexact power; distinct by history hash"
+const balRule = "balancer.Pool objects built directly: 2-8 assets, reserves log-uniform 1..1e30 (incl. 1e12:1 imbalances and reserves below 1000 units where one unit of rounding dominates), weights 1..2^20-1, a quarter of the pools liquidity-bootstrapping (smooth weight change towards generated target weights, block time advancing between operations and the pool poked at every load as the keeper does; normalised weights are taken from the per-asset weights, never from the pool's cached total), spread 0..10%, exit fee 0..5%; sequences of <= 12 operations (swap exact in/out, single-asset join, multi-asset uneven join, proportional no-swap join, exit, single-asset in for exact shares, exit-swap exact out) with trade sizes from 1 unit to multiples of the reserve; oracle: closed constant-weighted-product formula in 1024-bit floats with tolerance = unknown balance x the power precision bound (PowTol) + 2 units, one-sided (never in the trader's favour beyond it), and ln(value per share) = sum w_k/W ln B_k - ln S never falling by more than the same tolerance relative to the affected reserve/share total; proportional joins mint <= floor(S*min in_k/B_k), exits pay <= floor(B_k*shares(1-exitFee)/S); non-trivial = an operation moved a reserve by more than one unit with an inexact power; distinct by history hash"
 
 func TestPropBalancer(t *testing.T) {
-	ctx := testCtx()
+	ctx0 := testCtx()
 	drv.Check(t, drv.Cfg{Name: "balancer-math", Rule: balRule, Quick: 2500, Thorough: 80000}, func(rt *rapid.T, c *drv.Case) {
 		b := newBalancer(rt)
-		W := func() F { return fi(b.p.GetTotalWeight().BigInt()) }
+		ctx := ctx0.WithBlockTime(b.now)
+		W := func() F { return b.sumW() }
 		var hist []string
 		nt := false
 		nops := rapid.IntRange(1, 12).Draw(rt, "nops")
 		for step := 0; step < nops; step++ {
+			if b.lbp {
+				var dt time.Duration
+				switch rapid.IntRange(0, 3).Draw(rt, "dtKind") {
+				case 0:
+					dt = 0
+				case 1:
+					dt = time.Duration(rapid.Int64Range(1, int64(time.Hour)).Draw(rt, "dtShort"))
+				default:
+					dt = time.Duration(rapid.Int64Range(1, int64(4*24*time.Hour)).Draw(rt, "dtLong"))
+				}
+				b.now = b.now.Add(dt)
+				ctx = ctx.WithBlockTime(b.now)
+				b.p.PokePool(b.now)
+				c.Class("lbp-pool")
+				if b.p.PoolParams.SmoothWeightChangeParams == nil {
+					c.Class("lbp-weights-reached-target")
+				} else if b.now.After(b.p.PoolParams.SmoothWeightChangeParams.StartTime) {
+					c.Class("lbp-weights-shifting")
+				}
+			}
 			before := b.lnV()
 			S0 := b.shares()
 			kind := rapid.IntRange(0, 7).Draw(rt, "op")
